@@ -37,8 +37,10 @@ INT_CTORS = gen.ctors(names=(
 INT_REDUCED = [c for c in INT_CTORS if c.name in (
     "Sum2", "Product2", "FloorDiv", "Remainder", "Pow2", "LeftShift", "BitwiseNot", "BitwiseAnd2",
     "BitwiseOr2", "Cmp<", "Cmp==", "LogicalNot", "LogicalAnd2", "If", "CSEp")]
+POWNEG = [Ctor(f"Pow{k}", "Power", ("e",), lambda ch, k=k: ("Power", ch[0], C(k)))
+          for k in (-1, -2)] + [Ctor("Pow-1.0", "Power", ("e",), lambda ch: ("Power", ch[0], C(-1.0)))]
 FLT_CTORS = gen.ctors(names=("Sum2", "Sum3", "Product2", "Product3", "Quotient", "Power",
-                             "Cmp<", "Cmp>=", "If", "Min2", "Max2", "CSE")) + POWK[1:]
+                             "Cmp<", "Cmp>=", "If", "Min2", "Max2", "CSE")) + POWK[1:] + POWNEG
 
 FILL = dict(gen.DEFAULT_FILL)
 FILL["e"] = [V("x"), V("y"), V("z"), C(2), C(3)]
@@ -318,6 +320,104 @@ def check_specs(specs, floating, r=None):
     return fails
 
 
+# {{{ callee forms: a function given by name, as a struct member, as an array element
+
+CALLEE_C = r"""
+#include <stdio.h>
+static long long f(long long a) { return a + 1; }
+static long long g(long long a, long long b) { return 10 * a + b; }
+static long long triple(long long a) { return 3 * a; }
+static long long mix(long long a, long long b) { return a - 7 * b; }
+struct S { long long (*f)(long long); long long (*g)(long long, long long); };
+static struct S s = { triple, mix };
+static struct S ss[2] = { { f, g }, { triple, mix } };
+static long long (*fs[2])(long long) = { triple, f };
+"""
+
+
+def check_callees(r=None):
+    """The callee of a Call is an expression of its own: a name, a member of a struct (look-up), an
+    element of an array of function pointers (subscript).  In the environment the struct member f
+    is another function than the global f.  Compiled with gcc and run; oracle = vf.refsem."""
+    import os
+    import shutil
+    import subprocess
+    import tempfile
+    import types
+
+    from pymbolic.mapper.c_code import CCodeMapper
+    from pymbolic.mapper.stringifier import PREC_NONE
+    fvar, gvar, svar = V("f"), V("g"), V("s")
+    sf, sg = ("Lookup", svar, S("f")), ("Lookup", svar, S("g"))
+    fs0, fs1 = ("Subscript", V("fs"), C(0)), ("Subscript", V("fs"), C(1))
+    ss1f = ("Lookup", ("Subscript", V("ss"), C(1)), S("f"))
+    trees = [("Call", fvar, T(X)), ("Call", sf, T(X)), ("Call", fs0, T(X)), ("Call", fs1, T(X)),
+             ("Call", sg, T(X, Y)), ("Call", gvar, T(X, Y)), ("Call", ss1f, T(X)),
+             ("Sum", T(("Call", sf, T(X)), ("Call", fvar, T(X)))),
+             ("Product", T(C(2), ("Call", sf, T(("Call", fvar, T(Y)))))),
+             ("Call", fvar, T(("Call", sg, T(X, ("Call", fs0, T(Y)))))),
+             ("If", ("Comparison", ("Call", sf, T(X)), S("<"), ("Call", fvar, T(Y))),
+              ("Call", sg, T(X, Y)), ("Call", gvar, T(X, Y)))]
+
+    def pf(a):
+        return a + 1
+
+    def pg(a, b):
+        return 10 * a + b
+    s_obj = types.SimpleNamespace(f=lambda a: 3 * a, g=lambda a, b: a - 7 * b)
+    ss_obj = [types.SimpleNamespace(f=pf, g=pg), s_obj]
+    points = [(2, 5), (0, 3), (7, 1)]
+    cases = []
+    for t in trees:
+        try:
+            text = CCodeMapper()(build(t), PREC_NONE)
+        except RecursionError:
+            raise
+        except Exception as ex:  # noqa: BLE001
+            yield ("callee-map-raises", f"callee-map-raises|{show(t)}", f"{show(t)}: {ex!r}")
+            continue
+        cases.append((t, text))
+    lines = [CALLEE_C, "int main(void) {",
+             "  const long long pts[][2] = {" + ", ".join("{%d, %d}" % p_ for p_ in points) + "};",
+             "  for (int i = 0; i < %d; ++i) { long long x = pts[i][0], y = pts[i][1];"
+             % len(points)]
+    for k, (_t, text) in enumerate(cases):
+        lines.append(f'    printf("%d %d %lld\\n", {k}, i, (long long)({text}));')
+    lines += ["  }", "  return 0;", "}"]
+    d = tempfile.mkdtemp(prefix="vf-c14-callee-")
+    try:
+        src = os.path.join(d, "c.c")
+        with open(src, "w") as fh:
+            fh.write("\n".join(lines) + "\n")
+        exe = os.path.join(d, "c")
+        cp = subprocess.run(["gcc", "-O0", "-w", "-std=gnu11", "-o", exe, src],
+                            capture_output=True, text=True, timeout=300)
+        if cp.returncode != 0:
+            yield ("callee-compile", "callee-compile", "gcc rejected the generated texts "
+                   + str([t for _, t in cases]) + ": " + cp.stderr[-500:])
+            return
+        out = subprocess.run([exe], capture_output=True, text=True, timeout=60).stdout
+    finally:
+        shutil.rmtree(d, ignore_errors=True)
+    for ln in out.splitlines():
+        k, i, val = ln.split()
+        t, text = cases[int(k)]
+        vx, vy = points[int(i)]
+        env = {"x": vx, "y": vy, "f": pf, "g": pg, "s": s_obj, "ss": ss_obj,
+               "fs": [s_obj.f, pf]}
+        want = refsem.evaluate(t, env)
+        if r is not None:
+            r.evals += 1
+        if int(val) != want:
+            yield ("callee-value", f"callee-value|{show(t)}",
+                   f"{show(t)} -> '{text}': at (x, y) = ({vx}, {vy}) expected {want}, C computed "
+                   f"{val}")
+    if r is not None:
+        r.keys.extend(show(t) for t, _ in cases)
+
+# }}}
+
+
 # {{{ complex constants (C++: std::complex)
 
 CX_CONSTS = (1 + 2j, 2 + 0j, complex(0.5, 0.0), complex(0.5, -0.0), 1j, complex(-1.5, 0.0),
@@ -551,7 +651,9 @@ class C14(Check):
             "floating fragment (quotient, powers, non-integer constants) -- each compiled by gcc "
             "and run on every in-range environment of {0,1,2,3,5}^vars ({0.5,1,2.5,4}^vars); 7 "
             "complex constants (zero imaginary parts included) in 8 operand roles, compiled as C++ "
-            "and run at a negative and a positive point. "
+            "and run at a negative and a positive point; 11 calls whose callee is a name, a struct "
+            "member or an array element (the member f differs from the global f), compiled and run; "
+            "negative constant exponents (-1, -2, -1.0) in the floating fragment. "
             "Engine B: every history up to the depth bound over {map one of 8 expressions with "
             "shared/fresh/nested/prefixed wrappers on the original mapper or on its copy, map one "
             "of 2 expressions with an unrenderable leaf (must fail every time and leave the tables "
@@ -597,6 +699,7 @@ class C14(Check):
                 s for s in gen.twin_trees([(C(-1), C(-2)), (C(0), C(5)), (C(1), C(2))])
                 if s[0] != "tuple"))),
             ("complex-constants", lambda: iter([("cx", 0)])),
+            ("callee-forms", lambda: iter([("callee", 0)])),
             ("histories", lambda: (("h", (op,)) for op in OPS)),
         ]
         if tier == "thorough":
@@ -646,6 +749,10 @@ class C14(Check):
         mode = item[0]
         if mode == "h":
             return self.check_histories(r, tuple(tuple(op) for op in item[1]), tier)
+        if mode == "callee":
+            for k, sig, detail in check_callees(r):
+                r.fail(k, sig, detail)
+            return r
         if mode == "cx":
             for k, sig, detail in check_complex(r):
                 r.fail(k, sig, detail)
